@@ -15,13 +15,15 @@ Definition ustep (u : unit) (e : ev) : option unit := Some u.
 Notation IINV := (Inv ustep in_step tt (mkIn [] [] None)).
 
 (* side assertions that hold across a single system call *)
-Inductive xasrt := XNone | XOpen (cid : Z) | XReg (cid fd : Z).
+Inductive xasrt := XNone | XOpen (cid : Z) | XReg (cid fd : Z) | XLt (cid : Z) | XRegd (cid : Z).
 
 Definition xsem (xa : xasrt) (s : lstate) : Prop :=
   match xa with
   | XNone => True
   | XOpen cid => c_opened (getc s cid) = true
   | XReg cid fd => cid < l_next s /\ c_fd (getc s cid) = fd /\ alookup fd (l_reg s) = None
+  | XLt cid => cid < l_next s
+  | XRegd cid => cid < l_next s /\ alookup (c_fd (getc s cid)) (l_reg s) = Some cid
   end.
 
 Definition live (x : inst) (cid : Z) : Prop := zmem cid (i_closed x) = false.
@@ -42,7 +44,8 @@ Record RIn (W : list Z) (ex : Z -> Prop) (owed : option Z) (xa : xasrt)
       (alookup (c_fd (getc s cid)) (l_reg s) = None /\ In cid W);
   ri_nop : forall cid, live x cid -> c_opened (getc s cid) = false ->
       c_in (getc s cid) = [] /\ c_buf (getc s cid) = [];
-  ri_x : xsem xa s
+  ri_x : xsem xa s;
+  ri_W : forall cid, In cid W -> zmem cid (i_closed x) = true
 }.
 
 Definition ex_none : Z -> Prop := fun _ => False.
@@ -62,7 +65,7 @@ Lemma RIn_frame : forall W ex owed xa u x s s',
   (forall cid cb, In (TRegister cid cb) (tasks s') -> In (TRegister cid cb) (tasks s)) ->
   RIn W ex owed xa u x s'.
 Proof.
-  intros W ex owed xa u x s s' [R1 R2 R3 R4 R5 R6 R7 R8] Hc Hr Hn Ht.
+  intros W ex owed xa u x s s' [R1 R2 R3 R4 R5 R6 R7 R8 R9] Hc Hr Hn Ht.
   constructor; intros; rewrite ?Hc, ?Hr, ?Hn in *; eauto.
   destruct xa; cbn [xsem] in *; rewrite ?Hc, ?Hr, ?Hn; auto.
 Qed.
@@ -84,7 +87,7 @@ Lemma RIn_fresh : forall W ex owed xa u x s c,
   RIn W ex owed xa u x s -> c_opened c = false -> c_in c = [] -> c_buf c = [] ->
   RIn W ex owed xa u x (set_next (setc s (l_next s) c) (l_next s + 1)).
 Proof.
-  intros W ex owed xa u x s c [R1 R2 R3 R4 R5 R6 R7 R8] Ho Hi Hb.
+  intros W ex owed xa u x s c [R1 R2 R3 R4 R5 R6 R7 R8 R9] Ho Hi Hb.
   constructor; cbn [set_next setc l_next l_reg].
   - exact R1.
   - intros cid Hl. rewrite getc_set_next, getc_setc.
@@ -100,10 +103,13 @@ Proof.
   - intros cid. rewrite getc_set_next, getc_setc.
     destruct (Z.eqb_spec cid (l_next s)) as [->|N]; [congruence|]. auto.
   - intros cid. rewrite getc_set_next, getc_setc. destruct (Z.eqb_spec cid (l_next s)) as [->|N]; auto.
-  - destruct xa as [|cid|cid fd]; cbn [xsem] in *; cbn [set_next setc l_next l_reg]; rewrite ?getc_set_next, ?getc_setc; auto.
+  - destruct xa as [|cid|cid fd|cid|cid]; cbn [xsem] in *; cbn [set_next setc l_next l_reg]; rewrite ?getc_set_next, ?getc_setc; auto.
     + destruct (Z.eqb_spec cid (l_next s)) as [->|N]; [|exact R8]. apply R3 in R8. lia.
     + destruct R8 as (A & B & C). destruct (Z.eqb_spec cid (l_next s)) as [->|N]; [lia|].
       repeat split; auto. lia.
+    + lia.
+    + destruct R8 as (A & B). destruct (Z.eqb_spec cid (l_next s)) as [->|N]; [lia|]. split; [lia|exact B].
+  - exact R9.
 Qed.
 
 Lemma RIn_pull_ok : forall W ex owed xa, pull_ok ustep in_step (RIn W ex owed xa).
@@ -116,7 +122,7 @@ Proof.
     + apply RIn_flag. apply RIn_enq; assumption.
     + destruct Hc as (Ho & Hi & _ & Hb & _).
       pose proof (RIn_fresh _ _ _ _ _ _ _ c HR Ho Hi Hb) as HF.
-      destruct HF as [R1 R2 R3 R4 R5 R6 R7 R8].
+      destruct HF as [R1 R2 R3 R4 R5 R6 R7 R8 R9].
       constructor; intros; rewrite ?getc_set_flag, ?getc_enqueue in *; cbn [set_flag set_queues l_reg l_next];
         rewrite ?l_reg_enqueue, ?l_next_enqueue in *; eauto.
       * rewrite tasks_set_flag in H. apply tasks_enqueue in H. destruct H as [H|H].
@@ -184,7 +190,7 @@ Lemma RIn_setc : forall W ex owed u x s cid c',
   (live x cid -> c_in c' = c_in (getc s cid) /\ c_buf c' = c_buf (getc s cid)) ->
   RIn W ex owed XNone u x (setc s cid c').
 Proof.
-  intros W ex owed u x s cid c' [R1 R2 R3 R4 R5 R6 R7 R8] Hf Ho Hl.
+  intros W ex owed u x s cid c' [R1 R2 R3 R4 R5 R6 R7 R8 R9] Hf Ho Hl.
   constructor; cbn [setc l_next l_reg].
   - exact R1.
   - intros cid0 L. rewrite getc_setc. destruct (Z.eqb_spec cid0 cid) as [->|N]; [|auto].
@@ -197,6 +203,7 @@ Proof.
   - intros cid0 L. rewrite getc_setc. destruct (Z.eqb_spec cid0 cid) as [->|N]; [|auto].
     destruct (Hl L) as [-> ->]. rewrite Ho. auto.
   - exact I.
+  - exact R9.
 Qed.
 
 (* one connection consumes: its rest in the checker changes with it *)
@@ -208,7 +215,7 @@ Lemma RIn_upd : forall W ex owed u x s cid c' r',
   (c_in (getc s cid) = [] -> c_buf (getc s cid) = [] -> c_in c' = [] /\ c_buf c' = []) ->
   RIn W ex owed XNone u (mkIn (aset cid r' (i_rest x)) (i_closed x) (i_owed x)) (setc s cid c').
 Proof.
-  intros W ex owed u x s cid c' r' [R1 R2 R3 R4 R5 R6 R7 R8] Hf Ho Hr Hb Hn.
+  intros W ex owed u x s cid c' r' [R1 R2 R3 R4 R5 R6 R7 R8 R9] Hf Ho Hr Hb Hn.
   constructor; unfold live in *; cbn [setc l_next l_reg i_rest i_closed i_owed].
   - exact R1.
   - intros cid0 L. rewrite getc_setc, getd_aset. destruct (Z.eqb_spec cid0 cid) as [->|N]; auto.
@@ -219,6 +226,7 @@ Proof.
   - intros cid0 L. rewrite getc_setc. destruct (Z.eqb_spec cid0 cid) as [->|N]; [|auto].
     rewrite Ho. intros E. destruct (R7 _ L E). auto.
   - exact I.
+  - exact R9.
 Qed.
 
 (* the checker on a handler-visible value *)
@@ -359,7 +367,7 @@ Proof.
   intros [] x _ HR. cbn [ustep]. cbn [in_step obs].
   destruct (zmem cid (i_closed x)) eqn:Ez; [exists x; split; [reflexivity|exact HR]|].
   unfold consuming in Hc. rewrite Hc. rewrite is_prefix_nil. eexists. split; [reflexivity|].
-  destruct HR as [R1 R2 R3 R4 R5 R6 R7 R8].
+  destruct HR as [R1 R2 R3 R4 R5 R6 R7 R8 R9].
   constructor; unfold live in *; cbn [i_rest i_closed i_owed]; auto.
   intros cid0 L. rewrite getd_aset. destruct (Z.eqb_spec cid0 cid) as [->|N]; auto.
   change (zlen []) with 0. rewrite zdrop_neg by lia. auto.
@@ -520,4 +528,217 @@ Proof.
     destruct (c_opened (wc w t)); [|dsync].
     apply (mb_hcall _ M). exact HI. }
   dsync.
+Qed.
+
+Lemma zmem_cons : forall x y l, zmem x (y :: l) = (x =? y) || zmem x l.
+Proof. reflexivity. Qed.
+
+(* the close callback is announced: the connection leaves the registry and is skipped from now on *)
+Lemma RIn_close : forall W ex u x s cid,
+  RIn W ex None XNone u x s ->
+  c_opened (getc s cid) = true -> alookup (c_fd (getc s cid)) (l_reg s) <> None ->
+  RIn (cid :: W) ex None XNone u (mkIn (i_rest x) (cid :: i_closed x) None)
+      (set_reg s (aremove (c_fd (getc s cid)) (l_reg s))).
+Proof.
+  intros W ex u x s cid [R1 R2 R3 R4 R5 R6 R7 R8 R9] Ho Hr.
+  constructor; unfold live in *; cbn [set_reg l_reg l_next i_rest i_closed i_owed]; try rewrite zmem_cons.
+  - reflexivity.
+  - intros cid0 L. rewrite zmem_cons in L. apply orb_false_elim in L. destruct L as [_ L]. rewrite getc_set_reg. auto.
+  - intros cid0. rewrite getc_set_reg. auto.
+  - exact R4.
+  - intros cid0 L. rewrite zmem_cons in L. apply orb_false_elim in L. destruct L as [_ L]. rewrite getc_set_reg. auto.
+  - intros cid0. rewrite getc_set_reg. intros Ho0. rewrite alookup_aremove.
+    destruct (Z.eqb_spec (c_fd (getc s cid0)) (c_fd (getc s cid))) as [Ef|Nf].
+    + right. split; [reflexivity|].
+      destruct (R6 _ Ho0) as [A|[A B]]; [|right; exact B].
+      destruct (R6 _ Ho) as [C|[C _]]; [|congruence].
+      rewrite Ef in A. rewrite A in C. inversion C. left. reflexivity.
+    + destruct (R6 _ Ho0) as [A|[A B]]; [left; exact A|right; split; [exact A|right; exact B]].
+  - intros cid0 L. rewrite zmem_cons in L. apply orb_false_elim in L. destruct L as [_ L]. rewrite getc_set_reg. auto.
+  - exact I.
+  - intros cid0 [->|Hin]; rewrite zmem_cons; [rewrite Z.eqb_refl; reflexivity|]. rewrite (R9 _ Hin). apply orb_true_r.
+Qed.
+
+Lemma RIn_release : forall W ex u x s cid,
+  RIn (cid :: W) ex None XNone u x s ->
+  RIn W ex None XNone u x (setc s cid (c_release (getc s cid))).
+Proof.
+  intros W ex u x s cid [R1 R2 R3 R4 R5 R6 R7 R8 R9].
+  assert (Hc : zmem cid (i_closed x) = true) by (apply R9; left; reflexivity).
+  assert (Hrel : c_opened (c_release (getc s cid)) = false) by (unfold c_release; destruct (c_udp _); reflexivity).
+  assert (Hfd : c_fd (c_release (getc s cid)) = c_fd (getc s cid)) by (unfold c_release; destruct (c_udp _); reflexivity).
+  constructor; unfold live in *; cbn [setc l_reg l_next].
+  - exact R1.
+  - intros cid0 L. rewrite getc_setc. destruct (Z.eqb_spec cid0 cid) as [->|N]; [congruence|auto].
+  - intros cid0. rewrite getc_setc. destruct (Z.eqb_spec cid0 cid) as [->|N]; [congruence|auto].
+  - exact R4.
+  - intros cid0 L. rewrite getc_setc. destruct (Z.eqb_spec cid0 cid) as [->|N]; [congruence|auto].
+  - intros cid0. rewrite getc_setc. destruct (Z.eqb_spec cid0 cid) as [->|N]; [congruence|].
+    intros Ho0. destruct (R6 _ Ho0) as [A|[A [B|B]]]; [left; exact A|congruence|right; auto].
+  - intros cid0 L. rewrite getc_setc. destruct (Z.eqb_spec cid0 cid) as [->|N]; [congruence|auto].
+  - exact I.
+  - intros cid0 Hin. apply R9. right. exact Hin.
+Qed.
+
+Lemma el_close_S : forall f, MBI f -> forall cid e w r w' W ex,
+  IINV (RI W ex) w -> el_close (S f) cid e w = (r, w') -> IINV (RI W ex) w'.
+Proof.
+  intros f M cid e w r w' W ex HI E. cbn [el_close] in E.
+  destruct (c_opened (wc w cid)) eqn:Eo; cbn [negb orb] in E; [|inversion E; subst; exact HI].
+  destruct (alookup (c_fd (wc w cid)) (l_reg (st w))) as [rc|] eqn:Er; [|inversion E; subst; exact HI].
+  set (w2 := emit _ (with_st w _)) in E.
+  assert (H2 : IINV (RI (cid :: W) ex) w2).
+  { subst w2. eapply Inv_set_emit; [exact HI|reflexivity|].
+    intros [] x _ HR. cbn [ustep]. cbn [in_step obs]. rewrite (ri_owed _ _ _ _ _ _ _ HR).
+    eexists. split; [reflexivity|]. unfold wc in *. apply RIn_close; auto. congruence. }
+  clearbody w2.
+  destruct (handler f cid w2) as [[act rep] w3] eqn:Eh.
+  pose proof (mb_handler _ M _ _ _ _ _ _ H2 Eh) as H3.
+  pose proof (mb_drain _ M cid _ _ _ H3) as H4.
+  set (w4 := close_drain f cid w3) in *. clearbody w4.
+  assert (H5 : IINV (RI W ex) (wsetc w4 cid (c_release (wc w4 cid)))).
+  { eapply Inv_wsetc; [exact H4|]. intros [] x _ HR. apply RIn_release. exact HR. }
+  destruct (epctl "del" _ false false _) as [r0 w6] eqn:E6.
+  pose proof (I_epctl _ _ _ _ _ _ _ _ _ _ _ H5 E6) as H6.
+  destruct (sys "close" _ w6) as [k1 w7] eqn:E7.
+  pose proof (I_sys _ _ _ _ _ _ _ _ _ H6 E7) as H7.
+  destruct (match r0 with RNil => _ | _ => true end); [inversion E; subst; exact H7|].
+  destruct act; [inversion E; subst; exact H7| |inversion E; subst; exact H7].
+  eapply (mb_close _ M); eauto.
+Qed.
+
+Lemma close_drain_S : forall f, MBI f -> forall cid w W ex,
+  IINV (RI W ex) w -> IINV (RI W ex) (close_drain (S f) cid w).
+Proof.
+  intros f M cid w W ex HI. cbn [close_drain].
+  destruct (c_out (wc w cid)) as [|b0 l0] eqn:Eout; [exact HI|]. rewrite <- Eout.
+  destruct (sys_wr cid _ _ false w) as [k w1] eqn:Es.
+  pose proof (I_sys_wr _ _ _ _ _ _ _ _ _ _ _ HI Es) as H1.
+  destruct k; try exact H1.
+  apply (mb_drain _ M). apply I_wsetc_same; auto.
+Qed.
+
+Lemma conn_write_loop_S : forall f, MBI f -> forall cid d n w r w' W ex,
+  IINV (RI W ex) w -> conn_write_loop (S f) cid d n w = (r, w') -> IINV (RI W ex) w'.
+Proof.
+  intros f M cid d n w r w' W ex HI E. cbn [conn_write_loop] in E.
+  destruct (sys_wr cid _ d true w) as [k w1] eqn:Es.
+  pose proof (I_sys_wr _ _ _ _ _ _ _ _ _ _ _ HI Es) as H1.
+  destruct k as [sent extra|e|].
+  - destruct (zdrop sent d) as [|b0 l0] eqn:Ed; [inversion E; subst; exact H1|]. rewrite <- Ed in E.
+    destruct (l_et (st w)).
+    + eapply (mb_wloop _ M); eauto.
+    + destruct (epctl "mod" _ true false _) as [r3 w3] eqn:E3. inversion E; subst.
+      eapply I_epctl; [|exact E3]. apply I_wsetc_same; auto.
+  - destruct (is_eagain e); [|inversion E; subst; exact H1].
+    assert (H2 : IINV (RI W ex) (wsetc w1 cid (c_set_out (wc w1 cid) (c_out (wc w1 cid) ++ d))))
+      by (apply I_wsetc_same; auto).
+    destruct (l_et (st w)); [inversion E; subst; exact H2|].
+    destruct (epctl "mod" _ true false _) as [r3 w3] eqn:E3. inversion E; subst.
+    eapply I_epctl; eauto.
+  - inversion E; subst; exact H1.
+Qed.
+
+Lemma conn_writev_loop_S : forall f, MBI f -> forall cid sg n w r w' W ex,
+  IINV (RI W ex) w -> conn_writev_loop (S f) cid sg n w = (r, w') -> IINV (RI W ex) w'.
+Proof.
+  intros f M cid sg n w r w' W ex HI E. cbn [conn_writev_loop] in E.
+  destruct (sys_wr cid _ _ true w) as [k w1] eqn:Es.
+  pose proof (I_sys_wr _ _ _ _ _ _ _ _ _ _ _ HI Es) as H1.
+  destruct k as [sent extra|e|].
+  - destruct (List.concat (drop_sent sent sg)) as [|b0 l0] eqn:Ed; [inversion E; subst; exact H1|]. rewrite <- Ed in E.
+    destruct (l_et (st w)).
+    + eapply (mb_wvloop _ M); eauto.
+    + destruct (epctl "mod" _ true false _) as [r3 w3] eqn:E3. inversion E; subst.
+      eapply I_epctl; [|exact E3]. apply I_wsetc_same; auto.
+  - destruct (is_eagain e); [|inversion E; subst; exact H1].
+    assert (H2 : IINV (RI W ex) (wsetc w1 cid (c_set_out (wc w1 cid) (c_out (wc w1 cid) ++ List.concat sg))))
+      by (apply I_wsetc_same; auto).
+    destruct (l_et (st w)); [inversion E; subst; exact H2|].
+    destruct (epctl "mod" _ true false _) as [r3 w3] eqn:E3. inversion E; subst.
+    eapply I_epctl; eauto.
+  - inversion E; subst; exact H1.
+Qed.
+
+Lemma conn_write_S : forall f, MBI f -> forall cid d w r w' W ex,
+  IINV (RI W ex) w -> conn_write (S f) cid d w = (r, w') -> IINV (RI W ex) w'.
+Proof.
+  intros f M cid d w r w' W ex HI E. cbn [conn_write] in E.
+  destruct (negb (c_opened (wc w cid))); [inversion E; subst; exact HI|].
+  assert (H1 : IINV (RI W ex) (ghost "sub" cid d w)) by (apply I_emit; [oign|exact HI]).
+  destruct (c_out (wc w cid)) as [|b0 l0] eqn:Eout.
+  - destruct (conn_write_loop f cid d (zlen d) _) as [[rn ok] w1] eqn:El.
+    pose proof (mb_wloop _ M _ _ _ _ _ _ _ _ H1 El) as H2.
+    destruct ok; [inversion E; subst; exact H2|].
+    destruct (el_close f cid false w1) as [r2 w2] eqn:Ec. inversion E; subst.
+    eapply (mb_close _ M); eauto.
+  - inversion E; subst. apply I_wsetc_same; rewrite ?wc_ghost; auto.
+Qed.
+
+Lemma conn_writev_S : forall f, MBI f -> forall cid sg w r w' W ex,
+  IINV (RI W ex) w -> conn_writev (S f) cid sg w = (r, w') -> IINV (RI W ex) w'.
+Proof.
+  intros f M cid sg w r w' W ex HI E. cbn [conn_writev] in E.
+  destruct (negb (c_opened (wc w cid))); [inversion E; subst; exact HI|].
+  assert (H1 : IINV (RI W ex) (ghost "sub" cid (List.concat sg) w)) by (apply I_emit; [oign|exact HI]).
+  destruct (c_out (wc w cid)) as [|b0 l0] eqn:Eout.
+  - destruct sg as [|s0 sg']; [inversion E; subst; exact H1|].
+    destruct (conn_writev_loop f cid _ _ _) as [[rn ok] w1] eqn:El.
+    pose proof (mb_wvloop _ M _ _ _ _ _ _ _ _ H1 El) as H2.
+    destruct ok; [inversion E; subst; exact H2|].
+    destruct (el_close f cid false w1) as [r2 w2] eqn:Ec. inversion E; subst.
+    eapply (mb_close _ M); eauto.
+  - inversion E; subst. apply I_wsetc_same; rewrite ?wc_ghost; auto.
+Qed.
+
+Lemma el_write_S : forall f, MBI f -> forall cid sent w r w' W ex,
+  IINV (RI W ex) w -> el_write (S f) cid sent w = (r, w') -> IINV (RI W ex) w'.
+Proof.
+  intros f M cid sent w r w' W ex HI E. cbn [el_write] in E.
+  destruct (negb (c_opened (wc w cid))); [inversion E; subst; exact HI|].
+  destruct (c_out (wc w cid)) as [|b0 l0] eqn:Eout; [inversion E; subst; exact HI|]. rewrite <- Eout in E.
+  destruct (sys_wr cid _ _ false w) as [k w1] eqn:Es.
+  pose proof (I_sys_wr _ _ _ _ _ _ _ _ _ _ _ HI Es) as H1.
+  destruct k as [n extra|e|].
+  - assert (H2 : IINV (RI W ex) (wsetc w1 cid (c_set_out (wc w1 cid) (zdrop n (c_out (wc w1 cid))))))
+      by (apply I_wsetc_same; auto).
+    destruct (zdrop n (c_out (wc w1 cid))) as [|b1 l1] eqn:Ed.
+    + destruct (l_et (st w)); [inversion E; subst; exact H2|]. eapply I_epctl; eauto.
+    + rewrite <- Ed in *. destruct (l_et (st w)); [|inversion E; subst; exact H2].
+      destruct (_ <? _).
+      * eapply (mb_elwrite _ M); eauto.
+      * eapply I_trigger; [|exact H2|exact E]. reflexivity.
+  - destruct (is_eagain e); [inversion E; subst; exact H1|]. eapply (mb_close _ M); eauto.
+  - inversion E; subst; exact H1.
+Qed.
+
+Lemma handler_S : forall f, MBI f -> forall cid w r w' W ex,
+  IINV (RI W ex) w -> handler (S f) cid w = (r, w') -> IINV (RI W ex) w'.
+Proof.
+  intros f M cid w r w' W ex HI E. rewrite handler_eq in E.
+  destruct (pull w) as [[[name args]|] w1] eqn:Ep.
+  - pose proof (I_pull _ _ _ _ _ _ _ _ HI Ep) as H1.
+    destruct (String.eqb name "hret").
+    { destruct args; inversion E; subst; [dsync|exact H1]. }
+    destruct (String.eqb name "h"); [|inversion E; subst; dsync].
+    destruct args as [|[?|?|call] args']; try (inversion E; subst; dsync).
+    eapply (mb_handler _ M); [|exact E]. apply (mb_hcall _ M). exact H1.
+  - inversion E; subst. eapply I_pull; eauto.
+Qed.
+
+Lemma MBI_all : forall f, MBI f.
+Proof.
+  induction f as [|f IH].
+  - constructor; intros; cbn in *;
+      try match goal with E : (_, _) = (_, _) |- _ => inversion E; subst end; dsync.
+  - constructor.
+    + apply el_close_S; exact IH.
+    + apply close_drain_S; exact IH.
+    + apply conn_write_S; exact IH.
+    + apply conn_write_loop_S; exact IH.
+    + apply conn_writev_loop_S; exact IH.
+    + apply conn_writev_S; exact IH.
+    + apply el_write_S; exact IH.
+    + apply handler_S; exact IH.
+    + apply hcall_S; exact IH.
 Qed.
